@@ -1,14 +1,40 @@
-(* C05 proofs on the C12 variogram model (general solution 1: Vario::_calculateGeneralSolution1 + finish) *)
+(* C05 proofs on the C12 variogram model (Vario::_calculateGeneralSolution1 / 2 + scaling, centring, C(0) patch).
+   Depends on the DEFINITIONS of coq/C12/Model.v only; the few facts about its sort are re-proved here. *)
 From Coq Require Import List ZArith QArith Qabs Bool Lqa Lia Permutation Sorted.
-From Gst Require Import lib.QAux C12.Model C12.Spec C12.Proofs_enum C05.Reindex C05.Spec_vario.
+From Gst Require Import lib.QAux C12.Model C05.Reindex C05.Spec_vario.
 Import ListNotations.
 Local Open Scope Q_scope.
 
 (* ---------- the selection test of the loops is isActive ---------- *)
-Lemma skip_active cf s : negb (skip cf s) = is_active cf s.
-Proof. unfold skip, is_active. destruct (c_hasSel cf); cbn [negb andb orb]; [apply negb_involutive|reflexivity]. Qed.
+Lemma skip_active cf s : skip cf s = negb (is_active cf s).
+Proof. unfold skip, is_active. destruct (c_hasSel cf); cbn [negb andb orb]; reflexivity. Qed.
 
-(* ---------- the stable sort on the first coordinate commutes with the removal ---------- *)
+(* ---------- Db::getSortArray: stable insertion sort on the first coordinate ---------- *)
+Definition le_x1 (a b : sample) : Prop := x1 a <= x1 b.
+Lemma insert_In a l x : In x (insert a l) <-> x = a \/ In x l.
+Proof.
+  induction l as [|b r IH]; cbn [insert]; [cbn; intuition congruence|].
+  destruct (qleb (x1 a) (x1 b)); cbn [In]; [intuition congruence|]. rewrite IH. intuition congruence.
+Qed.
+Lemma insert_sorted a l : StronglySorted le_x1 l -> StronglySorted le_x1 (insert a l).
+Proof.
+  induction l as [|b r IH]; intro Hs; cbn [insert].
+  - constructor; constructor.
+  - inversion Hs as [|? ? Hr Hall]; subst.
+    destruct (qleb_spec (x1 a) (x1 b)) as [H|H].
+    + constructor; [exact Hs|]. constructor; [exact H|].
+      eapply Forall_impl; [|exact Hall]. intros c Hc. unfold le_x1 in *. lra.
+    + constructor; [apply IH; exact Hr|].
+      apply Forall_forall. intros x Hx. apply insert_In in Hx. destruct Hx as [E|Hx].
+      * subst x. unfold le_x1. lra.
+      * rewrite Forall_forall in Hall. apply Hall. exact Hx.
+Qed.
+Lemma sort_sorted l : StronglySorted le_x1 (sort_x1 l).
+Proof.
+  induction l as [|a r IH]; [constructor|].
+  change (sort_x1 (a :: r)) with (insert a (sort_x1 r)). apply insert_sorted. exact IH.
+Qed.
+
 Lemma insert_front a l : Forall (le_x1 a) l -> insert a l = a :: l.
 Proof.
   intro H. destruct l as [|b r]; [reflexivity|]. cbn [insert].
@@ -23,16 +49,15 @@ Proof.
   - inversion Hs as [|? ? Hr Hall]; subst. cbn [insert].
     destruct (qleb_spec (x1 a) (x1 b)) as [H|H].
     + cbn [filter]. destruct (f a) eqn:Fa; [|reflexivity].
-      symmetry. apply insert_front.
-      assert (G : Forall (le_x1 a) (b :: r)).
-      { constructor; [exact H|]. eapply Forall_impl; [|exact Hall]. intros c Hc. unfold le_x1 in *. lra. }
-      destruct (f b); [|inversion G; subst].
-      * constructor; [exact H|]. inversion G as [|? ? _ G2]; subst.
-        apply Forall_forall. intros c Hc. apply filter_In in Hc. rewrite Forall_forall in G2. apply G2. tauto.
-      * apply Forall_forall. intros c Hc. apply filter_In in Hc. rewrite Forall_forall in H3. apply H3. tauto.
+      symmetry. apply insert_front. apply Forall_forall. intros c Hc.
+      assert (Hin : In c (b :: r)).
+      { destruct (f b); [destruct Hc as [E|Hc]; [left; exact E|right]|right]; apply filter_In in Hc; tauto. }
+      destruct Hin as [E|Hin]; [subst c; exact H|].
+      rewrite Forall_forall in Hall. specialize (Hall c Hin). unfold le_x1 in *. lra.
     + cbn [filter]. rewrite (IH Hr). destruct (f b) eqn:Fb; destruct (f a) eqn:Fa; try reflexivity.
       cbn [insert]. rewrite (proj2 (qleb_false (x1 a) (x1 b)) (Qnot_le_lt _ _ H)). reflexivity.
 Qed.
+(* the sort commutes with the physical removal *)
 Lemma sort_filter (f : sample -> bool) l : sort_x1 (filter f l) = filter f (sort_x1 l).
 Proof.
   induction l as [|a r IH]; [reflexivity|].
@@ -41,115 +66,180 @@ Proof.
   destruct (f a); [|exact IH]. change (sort_x1 (a :: filter f r)) with (insert a (sort_x1 (filter f r))).
   rewrite IH. reflexivity.
 Qed.
-
-(* ---------- pairs ---------- *)
-Lemma all_pairs_filter {A} (f : A -> bool) (l : list A) :
-  filter (fun p => f (fst p) && f (snd p)) (all_pairs l) = all_pairs (filter f l).
-Proof.
-  induction l as [|a r IH]; [reflexivity|]. cbn [all_pairs filter]. rewrite filter_app, IH.
-  destruct (f a) eqn:Fa.
-  - cbn [all_pairs]. f_equal. rewrite filter_map_comm. cbn [fst snd]. rewrite Fa. reflexivity.
-  - assert (E : filter (fun p : A * A => f (fst p) && f (snd p)) (map (pair a) r) = []).
-    { clear IH. induction r as [|x r IHr]; [reflexivity|]. cbn [map filter fst snd]. rewrite Fa. cbn [andb]. exact IHr. }
-    rewrite E. reflexivity.
-Qed.
 Lemma filter_idem {A} (f : A -> bool) l : filter f (filter f l) = filter f l.
 Proof. rewrite <- filter_and. apply filter_ext. intro x. destruct (f x); reflexivity. Qed.
-
-Lemma reached1_active cf d l :
-  c_dateLoop cf = false -> 0 < d_dpas d -> 0 <= d_tol d ->
-  reached1 cf d l = all_pairs (filter (is_active cf) (sort_x1 l)).
+Lemma filter_sorted (f : sample -> bool) l : StronglySorted le_x1 l -> StronglySorted le_x1 (filter f l).
 Proof.
-  intros Hd H1 H2. rewrite (reached1_all_pairs cf d l Hd H1 H2). rewrite <- all_pairs_filter.
-  apply filter_ext. intros [a b]. unfold unskipped. cbn [fst snd]. rewrite !skip_active. reflexivity.
+  induction 1 as [|a r Hr IH Hall]; cbn [filter]; [constructor|]. destruct (f a); [|exact IH].
+  constructor; [exact IH|]. apply Forall_forall. intros c Hc. apply filter_In in Hc. rewrite Forall_forall in Hall. apply Hall. tauto.
 Qed.
 
-(* the pairs handed to keepPair are those of the reduced Db; a pair with a masked end never gets there *)
-Lemma reached1_reduce cf d l :
-  c_dateLoop cf = false -> 0 < d_dpas d -> 0 <= d_tol d ->
-  reached1 cf d l = reached1 cf d (vreduce cf l).
+(* ---------- the inner loops ---------- *)
+Lemma inner_before_reduce cf md a pre :
+  inner_before cf md a (filter (is_active cf) pre) = inner_before cf md a pre.
 Proof.
-  intros Hd H1 H2. rewrite (reached1_active cf d l Hd H1 H2), (reached1_active cf d (vreduce cf l) Hd H1 H2).
-  unfold vreduce. rewrite sort_filter, filter_idem. reflexivity.
+  induction pre as [|b r IH]; [reflexivity|]. cbn [filter inner_before]. rewrite skip_active.
+  destruct (is_active cf b) eqn:Ab; cbn [negb inner_before].
+  - rewrite skip_active, Ab. cbn [negb]. rewrite IH. reflexivity.
+  - rewrite IH. destruct (qltb md (x1 a - x1 b)); reflexivity.
 Qed.
-Lemma reached1_only_active cf d l p :
-  c_dateLoop cf = false -> 0 < d_dpas d -> 0 <= d_tol d ->
-  In p (reached1 cf d l) -> is_active cf (fst p) = true /\ is_active cf (snd p) = true.
+Lemma inner_after_far cf md a js :
+  StronglySorted le_x1 js -> (forall b, In b js -> md < x1 b - x1 a) -> inner_after cf md a js = [].
 Proof.
-  intros Hd H1 H2 H. rewrite (reached1_all_pairs cf d l Hd H1 H2) in H. apply filter_In in H. destruct H as [_ H].
-  unfold unskipped in H. rewrite !skip_active in H. apply andb_true_iff in H. exact H.
+  intros _ H. destruct js as [|b r]; [reflexivity|]. cbn [inner_after].
+  rewrite (proj2 (qltb_true md (x1 b - x1 a)) (H b (or_introl eq_refl))). reflexivity.
 Qed.
-
-(* ---------- statistics used by the centring / C(0) patch ---------- *)
-Lemma gstats_reduce cf l iv jv : gstats cf l iv jv = gstats cf (vreduce cf l) iv jv.
+(* the "break" on a masked sample stops the loop; on the reduced Db the next sample, further away, stops it as well *)
+Lemma inner_after_reduce cf md a rest :
+  StronglySorted le_x1 rest ->
+  inner_after cf md a (filter (is_active cf) rest) = inner_after cf md a rest.
 Proof.
-  unfold gstats, vreduce. apply fold_left_skip. intros t s H. rewrite H. reflexivity.
+  induction rest as [|b r IH]; intro Hs; [reflexivity|]. inversion Hs as [|? ? Hr Hall]; subst.
+  cbn [filter inner_after]. rewrite skip_active.
+  destruct (qltb_spec md (x1 b - x1 a)) as [Far|Near].
+  - destruct (is_active cf b) eqn:Ab.
+    + cbn [inner_after]. rewrite (proj2 (qltb_true md (x1 b - x1 a)) Far). reflexivity.
+    + apply inner_after_far; [apply filter_sorted; exact Hr|].
+      intros c Hc. apply filter_In in Hc. destruct Hc as [Hc _].
+      rewrite Forall_forall in Hall. specialize (Hall c Hc). unfold le_x1 in Hall. lra.
+  - destruct (is_active cf b) eqn:Ab; cbn [negb].
+    + cbn [inner_after]. rewrite (proj2 (qltb_false md (x1 b - x1 a)) (Qnot_lt_le _ _ Near)). rewrite skip_active, Ab. cbn [negb].
+      rewrite (IH Hr). reflexivity.
+    + apply (IH Hr).
 Qed.
-
-(* ---------- the updates do not depend on the global means, except for the Poisson estimator ---------- *)
-Lemma pair_updates_means cf d m1 m2 a b : c_calc cf <> Poisson -> pair_updates cf d m1 a b = pair_updates cf d m2 a b.
+Lemma partners_reduce cf md pre a rest :
+  StronglySorted le_x1 rest ->
+  partners cf md (filter (is_active cf) pre) a (filter (is_active cf) rest) = partners cf md pre a rest.
 Proof.
-  intro H. unfold pair_updates.
-  destruct (isOK d (is_asym (c_calc cf)) (geo_of (d_codir d) (vsub (s_x b) (s_x a)))); [reflexivity|].
-  destruct (c_dateChk cf && negb (date_ok d a b)); [reflexivity|].
-  destruct (lag_rank d (g_d2 (geo_of (d_codir d) (vsub (s_x b) (s_x a))))); [|reflexivity].
-  unfold evaluate. destruct (c_calc cf); try reflexivity. contradiction H; reflexivity.
-Qed.
-
-Lemma accumulate1_reduce cf d l :
-  c_dateLoop cf = false -> 0 < d_dpas d -> 0 <= d_tol d -> c_calc cf <> Poisson ->
-  accumulate1 cf d l = accumulate1 cf d (vreduce cf l).
-Proof.
-  intros Hd H1 H2 Hc. unfold accumulate1. rewrite <- (reached1_reduce cf d l Hd H1 H2). f_equal.
-  apply flat_map_ext. intro p. apply pair_updates_means. exact Hc.
-Qed.
-
-Lemma finish_reduce cf d l arr : finish cf d l arr = finish cf d (vreduce cf l) arr.
-Proof.
-  unfold finish. apply map_ext. intros [iv jv]. rewrite <- gstats_reduce. reflexivity.
+  intro Hs. unfold partners. rewrite (inner_after_reduce cf md a rest Hs).
+  destruct (c_dateLoop cf); [rewrite inner_before_reduce|]; reflexivity.
 Qed.
 
-(* ---------- the whole of solution 1 ---------- *)
-Lemma solution1_reduce cf d l :
-  c_dateLoop cf = false -> 0 < d_dpas d -> 0 <= d_tol d -> c_calc cf <> Poisson ->
-  solution1 cf d l = solution1 cf d (vreduce cf l).
+(* ---------- solution 1: the pairs handed to keepPair ---------- *)
+Lemma outer1_reduce cf md pre cur :
+  StronglySorted le_x1 cur ->
+  outer1 cf md (filter (is_active cf) pre) (filter (is_active cf) cur) = outer1 cf md pre cur.
 Proof.
-  intros Hd H1 H2 Hc. unfold solution1. rewrite <- (accumulate1_reduce cf d l Hd H1 H2 Hc). apply finish_reduce.
+  revert pre. induction cur as [|a rest IH]; intros pre Hs; [reflexivity|].
+  inversion Hs as [|? ? Hr Hall]; subst. cbn [filter outer1]. rewrite skip_active.
+  destruct (is_active cf a) eqn:Aa; cbn [negb].
+  - cbn [outer1]. rewrite skip_active, Aa. cbn [negb]. rewrite (partners_reduce cf md pre a rest Hr).
+    f_equal. rewrite <- (IH (pre ++ [a]) Hr). rewrite filter_app. cbn [filter]. rewrite Aa. reflexivity.
+  - cbn [app]. rewrite <- (IH (pre ++ [a]) Hr). rewrite filter_app. cbn [filter]. rewrite Aa, app_nil_r. reflexivity.
+Qed.
+Lemma reached1_reduce cf d l : reached1 cf d (vreduce cf l) = reached1 cf d l.
+Proof.
+  unfold reached1, vreduce. rewrite sort_filter.
+  apply (outer1_reduce cf (maxdist d) [] (sort_x1 l) (sort_sorted l)).
 Qed.
 
-(* ---------- once reduced, the selection column can be dropped ---------- *)
-Lemma fold_left_ext_in' {A S} (f g : S -> A -> S) l s :
-  (forall s x, In x l -> f s x = g s x) -> fold_left f l s = fold_left g l s.
+(* a pair with a masked end never reaches keepPair *)
+Lemma inner_before_active cf md a js p : In p (inner_before cf md a js) -> fst p = a /\ is_active cf (snd p) = true.
 Proof.
-  revert s. induction l as [|x r IH]; intros s H; [reflexivity|]. cbn [fold_left].
-  rewrite (H s x) by (left; reflexivity). apply IH. intros s' y Hy. apply H. right; exact Hy.
+  induction js as [|b r IH]; cbn [inner_before]; [intros []|].
+  destruct (qltb md (x1 a - x1 b)); [exact IH|]. rewrite skip_active.
+  destruct (is_active cf b) eqn:Ab; cbn [negb]; [|exact IH].
+  intros [H|H]; [subst p; cbn; auto|apply IH; exact H].
 Qed.
-Lemma filter_all {A} (f : A -> bool) l : (forall x, In x l -> f x = true) -> filter f l = l.
+Lemma inner_after_active cf md a js p : In p (inner_after cf md a js) -> fst p = a /\ is_active cf (snd p) = true.
 Proof.
-  induction l as [|x r IH]; intro H; [reflexivity|]. cbn [filter]. rewrite (H x) by (left; reflexivity).
-  f_equal. apply IH. intros y Hy. apply H. right; exact Hy.
+  induction js as [|b r IH]; cbn [inner_after]; [intros []|].
+  destruct (qltb md (x1 b - x1 a)); [intros []|]. rewrite skip_active.
+  destruct (is_active cf b) eqn:Ab; cbn [negb]; [|exact IH].
+  intros [H|H]; [subst p; cbn; auto|apply IH; exact H].
 Qed.
-Lemma firstn_In_local {A} (l : list A) n x : In x (firstn n l) -> In x l.
-Proof. rewrite <- (firstn_skipn n l) at 2. intro H. apply in_or_app. left; exact H. Qed.
-Lemma solution1_nosel cf d l :
-  c_dateLoop cf = false -> 0 < d_dpas d -> 0 <= d_tol d ->
-  (forall s, In s l -> is_active cf s = true) ->
-  solution1 cf d l = solution1 (cfg_nosel cf) d l.
+Lemma outer1_active cf md pre cur p :
+  In p (outer1 cf md pre cur) -> is_active cf (fst p) = true /\ is_active cf (snd p) = true.
 Proof.
-  intros Hd H1 H2 Hall.
-  assert (HS : forall s, In s (sort_x1 l) -> is_active cf s = true)
-    by (intros s Hs; apply Hall; apply (Permutation_in s (sort_perm l) Hs)).
-  assert (ER : reached1 cf d l = reached1 (cfg_nosel cf) d l).
-  { rewrite (reached1_active cf d l Hd H1 H2), (reached1_active (cfg_nosel cf) d l Hd H1 H2).
-    rewrite (filter_all (is_active cf) (sort_x1 l) HS). rewrite filter_all by (intros; reflexivity). reflexivity. }
-  unfold solution1, accumulate1. rewrite ER.
-  assert (EM : stat_means cf l = stat_means (cfg_nosel cf) l).
-  { unfold stat_means. apply map_ext. intro iv. unfold stat_mean. cbn [c_nvar cfg_nosel].
-    rewrite (filter_all (is_active cf)) by (intros s Hs; apply Hall; apply (firstn_In_local l (c_nvar cf) s Hs)).
-    rewrite (filter_all (is_active (cfg_nosel cf))) by (intros; reflexivity). reflexivity. }
-  rewrite EM.
-  unfold finish. apply map_ext. intros [iv jv].
-  assert (EG : gstats cf l iv jv = gstats (cfg_nosel cf) l iv jv).
-  { unfold gstats. apply fold_left_ext_in'. intros t s Hs. rewrite (Hall s Hs). reflexivity. }
-  rewrite EG. reflexivity.
+  revert pre. induction cur as [|a rest IH]; intro pre; cbn [outer1]; [intros []|].
+  intro H. apply in_app_or in H. destruct H as [H|H]; [|apply (IH _ H)].
+  rewrite skip_active in H. destruct (is_active cf a) eqn:Aa; cbn [negb] in H; [|destruct H].
+  unfold partners in H. apply in_app_or in H. destruct H as [H|H].
+  - destruct (c_dateLoop cf); [|destruct H]. apply inner_before_active in H. destruct H as [E H]. rewrite E. auto.
+  - apply inner_after_active in H. destruct H as [E H]. rewrite E. auto.
+Qed.
+
+(* ---------- global statistics ---------- *)
+Lemma stat_means_reduce cf l : stat_means cf (vreduce cf l) = stat_means cf l.
+Proof. unfold stat_means, stat_mean, vreduce. apply map_ext. intro iv. rewrite filter_idem. reflexivity. Qed.
+Lemma gstats_reduce cf l iv jv : gstats cf (vreduce cf l) iv jv = gstats cf l iv jv.
+Proof. unfold gstats, vreduce. symmetry. apply fold_left_skip. intros t s H. rewrite H. reflexivity. Qed.
+Lemma finish_reduce cf d l arr : finish cf d (vreduce cf l) arr = finish cf d l arr.
+Proof. unfold finish. apply map_ext. intros [iv jv]. rewrite gstats_reduce. reflexivity. Qed.
+
+(* ---------- the whole of solution 1 and of solution 2 ---------- *)
+Lemma solution1_reduce cf d l : solution1 cf d (vreduce cf l) = solution1 cf d l.
+Proof.
+  unfold solution1, accumulate1. rewrite reached1_reduce, stat_means_reduce. apply finish_reduce.
+Qed.
+
+Lemma outer2_reduce cf d means pre cur sums :
+  StronglySorted le_x1 cur ->
+  outer2 cf d means (filter (is_active cf) pre) (filter (is_active cf) cur) sums = outer2 cf d means pre cur sums.
+Proof.
+  revert pre sums. induction cur as [|a rest IH]; intros pre sums Hs; [reflexivity|].
+  inversion Hs as [|? ? Hr Hall]; subst. cbn [filter outer2]. rewrite skip_active.
+  destruct (is_active cf a) eqn:Aa; cbn [negb].
+  - cbn [outer2]. rewrite skip_active, Aa. cbn [negb]. rewrite (partners_reduce cf (maxdist d) pre a rest Hr).
+    rewrite <- (IH (pre ++ [a]) _ Hr). rewrite filter_app. cbn [filter]. rewrite Aa. reflexivity.
+  - rewrite <- (IH (pre ++ [a]) _ Hr). rewrite filter_app. cbn [filter]. rewrite Aa, app_nil_r. reflexivity.
+Qed.
+Lemma solution2_reduce cf d l : solution2 cf d (vreduce cf l) = solution2 cf d l.
+Proof.
+  unfold solution2. rewrite stat_means_reduce. unfold vreduce at 2. rewrite sort_filter.
+  pose proof (outer2_reduce cf d (stat_means cf l) [] (sort_x1 l) (zero_arr cf d) (sort_sorted l)) as H.
+  change (filter (is_active cf) []) with (@nil sample) in H. rewrite H. apply finish_reduce.
+Qed.
+Lemma compute_dir_reduce cf fs d l : compute_dir cf fs d (vreduce cf l) = compute_dir cf fs d l.
+Proof. unfold compute_dir. rewrite solution1_reduce, solution2_reduce. reflexivity. Qed.
+
+(* ---------- a sample of weight zero adds nothing to the accumulators (variogram, madogram, order-4, covariances) ---------- *)
+Definition zero_upd (u : upd) : Prop := u_sw u == 0 /\ u_hlo u == 0 /\ u_hhi u == 0 /\ u_glo u == 0 /\ u_ghi u == 0.
+Definition weight_product_calc (c : calc) : bool := match c with Vg | Mado | Order4 | Cov | CovNC => true | _ => false end.
+
+Lemma mk_upd_zero asym npas pc iv jv o ww vlo vhi : ww == 0 -> zero_upd (mk_upd asym npas pc iv jv o ww vlo vhi 0).
+Proof. intro H. unfold zero_upd, mk_upd. cbn [u_sw u_hlo u_hhi u_glo u_ghi]. rewrite H. repeat split; ring. Qed.
+Lemma half_zero ww : ww == 0 -> ww / 2 == 0.
+Proof. intro H. rewrite H. reflexivity. Qed.
+
+Lemma opt_list_zero {A} (o : option A) (f : A -> list upd) u :
+  (forall v x, In x (f v) -> zero_upd x) -> In u (match o with Some v => f v | None => [] end) -> zero_upd u.
+Proof. intros H Hu. destruct o as [v|]; [apply (H v u Hu)|destruct Hu]. Qed.
+
+Lemma eval_sym_zero npas pc a b ww phi iv u :
+  ww == 0 -> In u (eval_sym npas pc a b ww phi (fun _ => 0) iv) -> zero_upd u.
+Proof.
+  intros H Hu. unfold eval_sym in Hu.
+  destruct (zval a iv), (zval b iv); try (cbn in Hu; contradiction).
+  apply in_flat_map in Hu. destruct Hu as [jv [_ Hu]].
+  destruct (zval a jv), (zval b jv); try (cbn in Hu; contradiction).
+  cbn [In] in Hu. destruct Hu as [Hu|Hu]; [|destruct Hu]. subst u. apply mk_upd_zero. exact H.
+Qed.
+Lemma eval_asym_zero npas pc a b ww iv u :
+  ww == 0 -> In u (eval_asym npas pc a b ww iv) -> zero_upd u.
+Proof.
+  intros H Hu. unfold eval_asym in Hu. apply in_flat_map in Hu. destruct Hu as [jv [_ Hu]]. cbv zeta in Hu.
+  pose proof (half_zero ww H) as H2.
+  destruct (p_coinc pc); apply in_app_or in Hu; destruct Hu as [Hu|Hu];
+    (eapply opt_list_zero; [|exact Hu]); intros v x Hx; cbn [In] in Hx;
+    repeat (destruct Hx as [Hx|Hx]; [subst x; apply mk_upd_zero; assumption|]); destruct Hx.
+Qed.
+Lemma evaluate_zero cf npas means pc a b u :
+  weight_product_calc (c_calc cf) = true -> p_w1 pc * p_w2 pc == 0 ->
+  In u (evaluate cf npas means pc a b) -> zero_upd u.
+Proof.
+  intros Hc Hw Hu. unfold evaluate in Hu.
+  destruct (c_calc cf); try discriminate Hc; apply in_flat_map in Hu; destruct Hu as [iv [_ Hu]];
+    first [apply (eval_sym_zero _ _ _ _ _ _ _ _ Hw Hu) | apply (eval_asym_zero _ _ _ _ _ _ _ Hw Hu)].
+Qed.
+Lemma pair_updates_zero_weight cf d means a b u :
+  weight_product_calc (c_calc cf) = true -> (get_weight cf a == 0 \/ get_weight cf b == 0) ->
+  In u (pair_updates cf d means a b) -> zero_upd u.
+Proof.
+  intros Hc Hw Hu. unfold pair_updates in Hu.
+  destruct (isOK d (is_asym (c_calc cf)) (geo_of (d_codir d) (vsub (s_x b) (s_x a)))); [destruct Hu|].
+  destruct (c_dateChk cf && negb (date_ok d a b)); [destruct Hu|].
+  destruct (lag_rank d (g_d2 (geo_of (d_codir d) (vsub (s_x b) (s_x a))))); [|destruct Hu].
+  refine (evaluate_zero cf _ _ _ a b u Hc _ Hu). cbn [p_w1 p_w2].
+  destruct Hw as [Hw|Hw]; rewrite Hw; ring.
 Qed.
